@@ -43,6 +43,7 @@ Definition nfunc := (val * aggf)%type.            (* (label in the function map,
 Definition apply_nfunc (f : nfunc) (vs : list val) : val := apply_agg (snd f) vs.
 
 Definition vprow := prow tup tup val.
+Definition vpr (i c : tup) (d : list val) : vprow := mk_prow i c d.
 
 (* extrapolate_column_fields: column key ++ [data field] (several data fields, or no column fields)
    ++ [function label] (a function map with several entries) *)
